@@ -851,6 +851,7 @@ func bip68(c *ctx, timeBased bool, excess uint32) *refchain.Block {
 // ---------------------------------------------------------------------------------------------
 
 type Config struct {
+	Testnet4 bool // testnet4 rule set (BIP94 retarget base) - implies Testnet
 	Halving  bool // coinbase-only chain across the first subsidy halving (C04 thorough only)
 	Retarget bool // coinbase-only chain across several 2016-block epochs (C05 only)
 	Name     string
@@ -864,6 +865,10 @@ func params(cfg Config, seed uint64) refchain.Params {
 	p := chainsim.DefaultParams(seed, cfg.Testnet)
 	if cfg.Late {
 		p.BIP34, p.BIP66, p.BIP65, p.CSV, p.Segwit, p.Taproot = 104, 107, 110, 113, 118, 124
+	}
+	if cfg.Testnet4 {
+		p.GenesisHash[0], p.GenesisHash[1] = 0x43, 0xf0 // gocoin: testnet4 rule set
+		p.MinDiffBlocks, p.BIP94 = true, true
 	}
 	if cfg.Halving {
 		p.GenesisTime = 1420070400 // 2015: 210,000 blocks at 600 s spacing end in 2019, well before "now"
@@ -1339,9 +1344,11 @@ func Configs(tier string) []Config {
 		l = append(l, Config{Name: "halving", Halving: true})
 	}
 	if tier == "quick" {
-		l = append(l, Config{Name: "retarget-mainnet", Retarget: true, Blocks: 4*2016 + 20}, Config{Name: "retarget-testnet", Retarget: true, Testnet: true, Blocks: 2*2016 + 20})
+		l = append(l, Config{Name: "retarget-mainnet", Retarget: true, Blocks: 4*2016 + 20}, Config{Name: "retarget-testnet", Retarget: true, Testnet: true, Blocks: 2*2016 + 20},
+			Config{Name: "retarget-testnet4", Retarget: true, Testnet: true, Testnet4: true, Blocks: 3*2016 + 20})
 	} else {
-		l = append(l, Config{Name: "retarget-mainnet", Retarget: true, Blocks: 6*2016 + 20}, Config{Name: "retarget-testnet", Retarget: true, Testnet: true, Blocks: 6*2016 + 20})
+		l = append(l, Config{Name: "retarget-mainnet", Retarget: true, Blocks: 6*2016 + 20}, Config{Name: "retarget-testnet", Retarget: true, Testnet: true, Blocks: 6*2016 + 20},
+			Config{Name: "retarget-testnet4", Retarget: true, Testnet: true, Testnet4: true, Blocks: 6*2016 + 20})
 	}
 	if tier == "thorough" {
 		l = append(l,
